@@ -41,6 +41,7 @@ func registerAll() {
 	ev.Register("C16", "extract", checkC16)
 	ev.Register("C16", "arch", checkC16Arch)
 	ev.Register("C17", "history", checkC17)
+	ev.Register("C18", "profile", checkC18)
 	ev.Register("C19", "target", checkC19Target)
 	ev.Register("C19", "transplant", checkC19Transplant)
 	ev.Register("C12", "entry", checkC12Entry)
